@@ -46,6 +46,9 @@ struct Skel {
     edges: Vec<(usize, usize)>,
     entry: usize,
     exit: usize,
+    /// instruction-index gaps (see `FnSpec::gaps`): blocks as `remove_instruction` leaves them
+    #[serde(default)]
+    gaps: Vec<(usize, usize)>,
 }
 
 #[derive(Clone, Copy, Debug, Serialize, Deserialize, PartialEq, Eq, Hash)]
@@ -107,7 +110,7 @@ impl Skel {
             };
             edges.push((*h, *t, cond));
         }
-        FnSpec { address: 0x4000, blocks, edges, entry: Some(self.entry), exit: Some(self.exit) }
+        FnSpec { address: 0x4000, blocks, edges, entry: Some(self.entry), exit: Some(self.exit), gaps: self.gaps.clone() }
     }
 }
 
@@ -128,6 +131,7 @@ fn decode(t: &mut Tape) -> Case {
         edges: g.spec.edges.iter().map(|e| (e.0, e.1)).collect(),
         entry: g.spec.entry.unwrap_or(0),
         exit: g.spec.exit.unwrap_or(n - 1),
+        gaps: Vec::new(),
     };
     // gen_fn repairs reachability by adding edges, which leaves few sinks: sometimes turn blocks
     // into sinks (more acyclic shapes, several exits, more unreachable parts)
@@ -164,6 +168,15 @@ fn decode(t: &mut Tape) -> Case {
     } else {
         [Budget::Default, Budget::Zero, Budget::One, Budget::NeedMinus2, Budget::NeedMinus1, Budget::Need][t.weighted(&[40, 8, 8, 14, 15, 15])]
     };
+    // blocks whose instruction indices are not dense (what removing an instruction leaves)
+    if t.chance(1, 4) {
+        for _ in 0..t.range(1, 2) {
+            let b = t.below(n);
+            let len = skel.blocks[b];
+            let k = if len >= 2 && t.chance(3, 4) { t.range(1, len - 1) } else { t.below(len + 1) };
+            skel.gaps.push((b, k));
+        }
+    }
     Case { skel, kind, monotone, seed, size, backward, force, budget }
 }
 
@@ -638,6 +651,9 @@ fn check(case: &Case, obs: &mut Obs) -> Result<(), Failure> {
     let view = FnView::of(&function);
     let exit_block = function.control_flow_graph().exit().ok_or_else(|| Failure::new("C09|harness|build", "no exit"))?;
     let g = LocGraph::new(&view, exit_block, case.backward)?;
+    if case.skel.gaps.iter().any(|(b, k)| *k >= 1 && *k < case.skel.blocks[*b]) {
+        obs.class("index-gap-inside-block");
+    }
     let an = An {
         kind: case.kind,
         monotone: case.monotone,
@@ -937,6 +953,7 @@ fn main() -> std::process::ExitCode {
         ("empty-block", 0.05),
         ("multiple-exits", 0.05),
         ("unreachable-feeds-live", 0.03),
+        ("index-gap-inside-block", 0.03),
         ("nontrivial", 0.20),
         ("result-err-ordering", 0.03),
         ("budget-exhausted-err", 0.05),
